@@ -28,6 +28,7 @@ type RunOpts struct {
 	LogSMT        string // directory for query logs ("" = none)
 	KnownOpen     map[string]bool
 	Params        map[string]int // harness parameters read with vpParam
+	NoDefer       bool           // discharge every assertion immediately
 }
 
 func DefaultOpts() RunOpts {
@@ -83,6 +84,15 @@ func (p *Program) Harnesses() []string {
 
 type nilExt struct{}
 
+func (p *Program) initAllowed(path string) bool {
+	for _, a := range p.opts.InitPkgs {
+		if a == path {
+			return true
+		}
+	}
+	return false
+}
+
 func (p *Program) lookupExternal(fn *ssa.Function) externalFn {
 	if v, ok := p.extCache.Load(fn); ok {
 		if e, ok := v.(externalFn); ok {
@@ -125,6 +135,7 @@ type worker struct {
 	solver *Solver
 	ex     *explorer
 	stats  Stats
+	sites  map[string]int
 }
 
 // RunHarness explores every path of the named harness function.
@@ -146,7 +157,7 @@ func (p *Program) RunHarness(name string) *HarnessResult {
 	}
 	workers := make([]*worker, nw)
 	for k := 0; k < nw; k++ {
-		w := &worker{id: k, st: NewStore(), ex: ex}
+		w := &worker{id: k, st: NewStore(), ex: ex, sites: map[string]int{}}
 		workers[k] = w
 		wg.Add(1)
 		go func() {
@@ -194,6 +205,9 @@ func (p *Program) RunHarness(name string) *HarnessResult {
 		res.Stats.PropConcrete += w.stats.PropConcrete
 		res.Stats.Panics += w.stats.Panics
 		res.Stats.Deadlocks += w.stats.Deadlocks
+		for k, v := range w.sites {
+			res.QuerySites[k] += v
+		}
 		if w.solver != nil {
 			res.Stats.Queries += w.solver.Queries
 			res.Stats.SolverTime += w.solver.Time
@@ -239,6 +253,7 @@ func (w *worker) runPath(fn *ssa.Function, decs []int) {
 	sched.spawn("main", func() {
 		it.runInits()
 		call(it, nil, fn.Pos(), fn, nil)
+		it.flushAsserts()
 	})
 	var deadlock bool
 	var desc string
@@ -254,6 +269,18 @@ func (w *worker) runPath(fn *ssa.Function, decs []int) {
 		}()
 		deadlock, desc = sched.run()
 	}()
+	if _, isEnd := sched.err.(pathEnd); !isEnd {
+		func() {
+			defer func() {
+				if r := recover(); r != nil {
+					if _, ok := r.(pathEnd); !ok {
+						res.engineErr(fmt.Sprint("flush: ", r))
+					}
+				}
+			}()
+			it.flushAsserts()
+		}()
+	}
 	switch e := sched.err.(type) {
 	case nil:
 		if deadlock {
